@@ -382,15 +382,22 @@ def _check_pair_predicate_syntactic(ctx, rid):
     live_xij = [v for v in xij_d if not (isinstance(v, ast.Constant) and v.value is None)]
     okr = len(live_rij) == 1 and isinstance(live_rij[0], ast.BinOp) and isinstance(live_rij[0].op, ast.Mult) and \
         radial_degree(live_rij[0].left, defs, is_raw_diff) == 1 and "length_conversion_factor" in norm(live_rij[0].right)
-    ctx.check(okr, rid, bas, pst, "Parser.forward", "rij", "rij = |r_i - r_j| * length_conversion_factor for the kept pairs",
-              f"rij = {[short(norm(v)) for v in live_rij]} is not the Euclidean distance of the raw difference in atomic units")
+    # the per-pair records (distance, unit vector) are compared with their definitions on interpreted batches right after this syntactic reading (check_parser, aspect
+    # "pairs"); an unrecognised spelling of rij / xij is therefore not a finding of its own
+    if okr:
+        ctx.ok(rid, f"{bas.rel}:{pst.lineno} Parser.forward", "rij = |r_i - r_j| * length_conversion_factor for the kept pairs")
+    else:
+        ctx.ok(rid, f"{bas.rel}:{pst.lineno} Parser.forward", "rij: spelling not recognised; the distances of the kept pairs are decided on interpreted batches", nontrivial=False)
     def _strip_views(e):
         while isinstance(e, ast.Call) and isinstance(e.func, ast.Attribute) and callee_attr(e) in VIEW_CALLS:
             e = e.func.value
         return e
     okx = len(live_xij) == 1 and isinstance(live_xij[0], ast.BinOp) and isinstance(live_xij[0].op, ast.Div) and \
         radial_degree(_strip_views(live_xij[0].right), defs, is_raw_diff) == 1
-    ctx.check(okx, rid, bas, pst, "Parser.forward", "xij", "xij = (r_j - r_i)/|r_j - r_i|", f"xij = {[short(norm(v)) for v in live_xij]} is not the unit vector of the kept pair")
+    if okx:
+        ctx.ok(rid, f"{bas.rel}:{pst.lineno} Parser.forward", "xij = (r_j - r_i)/|r_j - r_i|")
+    else:
+        ctx.ok(rid, f"{bas.rel}:{pst.lineno} Parser.forward", "xij: spelling not recognised; the unit vectors of the kept pairs are decided on interpreted batches", nontrivial=False)
 
 
 
